@@ -738,7 +738,9 @@ def _output_pool(eao, rng, T, pts):
     """a random small portfolio drawn from a pool of asset kinds (one / two nodes, one / several rows per variable,
     internal variables, order book, scale variable) in random order"""
     A, B, C = eao.assets.Node('A'), eao.assets.Node('B'), eao.assets.Node('C')
-    w = lambda: rng.choice([(0, T), (0, T), (1, T), (0, max(1, T - 2)), (2, T)])
+    # windows: whole horizon, late start, early end, and exactly half / a third of the steps (so that the number of mapping rows of an asset
+    # with several rows per step coincides with the number of grid steps)
+    w = lambda: rng.choice([(0, T), (0, T), (1, T), (0, max(1, T - 2)), (2, T), (0, max(1, T // 2)), (T - max(1, T // 2), T), (0, max(1, T // 3))])
     pool = []
 
     def add(kind):
@@ -1240,7 +1242,7 @@ def check_chp_physics(case):
     kw = dict(min_runtime=case.get('mr', 0), min_downtime=case.get('md', 0), time_already_running=case.get('tar', 0), time_already_off=case.get('tao', 0),
               last_dispatch=case.get('last', 0.))
     chp = eao.assets.CHPAsset(name='chp', nodes=[P, Hn, G], min_cap=mn, max_cap=mx, extra_costs=.2, conversion_factor_power_heat='conv' if case.get('conv_series') else conv, max_share_heat=share,
-                              ramp=ramp, start_costs=.5, running_costs=.1, start_fuel=sfuel, fuel_efficiency=eff, consumption_if_on=cons, **kw)
+                              ramp=ramp, start_costs=0. if case.get('fuel_only') else .5, running_costs=.1, start_fuel=sfuel, fuel_efficiency=eff, consumption_if_on=cons, **kw)
     assets = [chp, eao.assets.SimpleContract(name='pm', nodes=P, price='p', min_cap=-10., max_cap=10.),
               eao.assets.SimpleContract(name='hd', nodes=Hn, min_cap=-case.get('heat', .5), max_cap=-case.get('heat', .5)),
               eao.assets.SimpleContract(name='boiler', nodes=Hn, price='hb', min_cap=0., max_cap=10.),
@@ -1252,9 +1254,13 @@ def check_chp_physics(case):
         prices['conv'] = conv
         prices['hb'] = np.asarray([float(rng.choice([0.5, 6., 12.])) for _ in range(T)])      # heat worth more / less from step to step
     pf = eao.portfolio.Portfolio(assets)
+    F = lambda name, detail: out.append(fail(name, 'assets:CHPAsset.setup_optim_problem', case, dict(case), f'{detail} | prices p={prices["p"].tolist()} g={prices["g"][0]}'))
+    alone = chp.setup_optim_problem(prices, tg)
+    if not (len(alone.c) == len(alone.l) == len(alone.u) == alone.A.shape[1]):
+        F('C06.driver.a_cost_entry_for_every_variable', f'stand-alone problem: {len(alone.c)} costs, {len(alone.l)} / {len(alone.u)} bounds, {alone.A.shape[1]} columns')
+        return out
     op = pf.setup_optim_problem(prices, tg)
     res = op.optimize()
-    F = lambda name, detail: out.append(fail(name, 'assets:CHPAsset.setup_optim_problem', case, dict(case), f'{detail} | prices p={prices["p"].tolist()} g={prices["g"][0]}'))
     if isinstance(res, str):
         return out
     m = op.mapping
@@ -1955,4 +1961,56 @@ def check_outside_inert(case):
             F('C08.outside.no_dispatch_outside_the_window', f'{kind}: reported dispatch of the outside asset is not zero')
     except Exception as e:
         F('C08.outside.output_can_be_extracted', f'{kind} {case["where"]}: extract_output raises {type(e).__name__}: {str(e)[:120]}')
+    return out
+
+
+# ------------------------------------------------------------------------------------------------ C07 well-formedness of every asset kind's problem
+def check_wf_kinds(case):
+    """C07: for assets of every kind (incl. plants whose binaries are triggered by one option only), stand-alone and assembled in a
+    portfolio: one cost / bound / column per variable, mapping rows point to existing variables, a variable without mapping row has no
+    cost and occurs in no row, bounds ordered, no NaN, steps on the grid."""
+    eao = eao_mod()
+    out = []
+    rng = random.Random(case['seed'])
+    T = case['T']
+    start = pd.Timestamp('2021-01-01')
+    tg = eao.assets.Timegrid(start, start + pd.Timedelta(T, 'h'), freq='h')
+    pts = list(tg.timepoints) + [tg.end]
+    pool = _output_pool(eao, rng, T, pts)
+    P, G, Hn = eao.assets.Node('A'), eao.assets.Node('G'), eao.assets.Node('B')
+    a, b = rng.choice([(0, T), (1, T), (0, T - 1)])
+    trig = case.get('trigger', 'start_fuel')
+    kw = dict(start_fuel=.3) if trig == 'start_fuel' else (dict(consumption_if_on=.2, min_cap=0.) if trig == 'consumption' else
+                                                          (dict(start_costs=1.) if trig == 'start_costs' else dict(min_downtime=2, time_already_off=1)))
+    kw.setdefault('min_cap', 1.)
+    plant = (eao.assets.Plant(name='pl', nodes=[P, G], max_cap=3., fuel_efficiency=.5, start=pts[a], end=pts[b], **kw) if case.get('plant', True) else
+             eao.assets.CHPAsset(name='pl', nodes=[P, Hn, G], max_cap=3., fuel_efficiency=.5, start=pts[a], end=pts[b], **kw))
+    pool.insert(rng.randrange(len(pool) + 1), plant)
+    pool.append(eao.assets.SimpleContract(name='gasmarket', nodes=G, price='p', min_cap=0., max_cap=20.))
+    prices = {'p': np.asarray([float(rng.randint(1, 9)) for _ in range(T)])}
+    F = lambda name, detail: out.append(fail(name, 'assets:Asset.setup_optim_problem', case, dict(case), detail))
+    for x in pool:
+        try:
+            op = x.setup_optim_problem(prices, tg)
+        except Exception as e:
+            F('C07.wf.asset_problem_can_be_set_up', f'{type(x).__name__} {x.name}: {type(e).__name__}: {str(e)[:120]}')
+            continue
+        for name, detail in _wf_problem(op, T, f'stand-alone {type(x).__name__} {x.name}'):
+            F(name, detail)
+    if out:
+        return out
+    pf = eao.portfolio.Portfolio(pool)
+    op = pf.setup_optim_problem(prices, tg)
+    for name, detail in _wf_problem(op, T, 'portfolio ' + str([type(x).__name__ for x in pool])):
+        F(name, detail)
+    if not out:
+        # every asset's own costs and bounds sit at its own variables
+        off = 0
+        for x in pool:
+            o1 = x.setup_optim_problem(prices, tg)
+            n = len(o1.l)
+            if not (np.allclose(op.c[off:off + n], o1.c) and np.allclose(op.l[off:off + n], o1.l) and np.allclose(op.u[off:off + n], o1.u)):
+                F('C07.wf.cost_and_bounds_are_those_the_asset_computed', f'{type(x).__name__} {x.name} at variables {off}..{off + n}')
+                break
+            off += n
     return out
